@@ -78,9 +78,12 @@ class HistModel:
         return out
 
     def drop_oldest(self):
-        r = len(self.rows) - 1
-        b = self.rows[r].pop(0)
-        if not self.rows[r] and r > 0:
+        # rows in the middle can be empty (max_buckets=1: a merge empties a row): the oldest bucket is the first
+        # bucket of the highest non-empty row
+        while len(self.rows) > 1 and not self.rows[-1]:
+            self.rows.pop()
+        b = self.rows[-1].pop(0)
+        while len(self.rows) > 1 and not self.rows[-1]:
             self.rows.pop()
         return b
 
@@ -270,6 +273,11 @@ def jobs(tier):
                                     "cfg": {"max_buckets": mb, "new_sample_thresh": nst, "window_size_thresh": wst,
                                             "subwindow_size_thresh": sst}},
                                    expect=("cut",), opts={"validate": 1}))
+    # max_buckets=1 empties whole rows when it merges: needs >= 11 samples to drop a bucket *past* an empty row
+    out.append(Job("struct-mb1-long", "checks.c03:body_structural",
+                   {"N": 11 if q else 13, "cfg": {"max_buckets": 1, "new_sample_thresh": 1, "window_size_thresh": 0,
+                                                  "subwindow_size_thresh": 1}},
+                   expect=("cut",), opts={"validate": 1}))
     for cons in (False, True):
         out.append(Job(f"epsilon-cut-conservative{int(cons)}", "checks.c03:body_epsilon_cut", {"conservative": cons},
                        expect=("lemma",), opts={"validate": 0}))
